@@ -6,7 +6,7 @@
    so the hypotheses [wf p] below are met by every Poly instance. *)
 From Coq Require Import List Bool ZArith QArith Qcanon Qpower Permutation String.
 From AL Require Import Base.CaseLib C07.Model C07.Spec C07.Lib C07.Proofs_Ring C07.Proofs_Eval
-  C07.Proofs_Calc C07.Proofs_Run C07.Proofs_Lagr C07.Check.
+  C07.Proofs_Calc C07.Proofs_Run C07.Proofs_Lagr C07.Proofs_Hist C07.Check.
 Import ListNotations.
 Open Scope Qc_scope.
 
@@ -215,3 +215,28 @@ Print Assumptions C07_ex_lagrange.
 Example C07_ex_eq : peq ex_p (rev ex_p) && negb (pne ex_p (rev ex_p)) && negb (peq ex_p ex_q) = true.
 Proof. vm_compute. reflexivity. Qed.
 Print Assumptions C07_ex_eq.
+
+(* ---------------------------------------------------------------- histories on live objects *)
+(* Poly instances are mutable until hashed.  In every state reachable by any history of constructions,
+   operators (each allocating a fresh object; p ** 1 of a several-term p is p itself), item assignments
+   (TypeError once hashed), hash() and set / dict insertions, every object on the heap satisfies the
+   representation invariant: no zero coefficient is ever stored. *)
+Theorem C07_history_no_zero_stored : forall ops,
+  Forall (fun x => Forall (fun o : poly * bool => wf (fst o)) (objs (fst x))) (hrun hinit ops).
+Proof. exact history_no_zero_stored. Qed.
+Print Assumptions C07_history_no_zero_stored.
+(* calls are independent: an operation leaves every object it does not assign to exactly as it was
+   (constructors and operators only allocate; v_i[k] = c changes the object behind v_i only) *)
+Theorem C07_calls_independent : forall s op o, (o < List.length (objs s))%nat ->
+  (forall i k c, op = HSet i k c -> forall x, obj_of s i = Some x -> fst x <> o) ->
+  (forall l, op <> HHash l) ->
+  nth_error (objs (fst (hstep s op))) o = nth_error (objs s) o.
+Proof. exact calls_independent. Qed.
+Print Assumptions C07_calls_independent.
+(* hashing changes no terms either: only the frozen flag *)
+Example C07_ex_history :
+  let ops := [HNew (EPairs ex_q); HUn (UDiff 0) 0; HHash [1%nat]; HSet 0 1%Z (qc 5 1); HSet 1 0%Z (qc 1 1); HUn (UPow 1) 0; HHash [0%nat; 1%nat; 2%nat]] in
+  list_eqb (res_eqb Z.eqb) (map snd (hrun hinit ops))
+           [Ok 0%Z; Ok 0%Z; Ok 1%Z; Ok 0%Z; Raise "TypeError"%string; Ok 0%Z; Ok 2%Z] = true.
+Proof. vm_compute. reflexivity. Qed.
+Print Assumptions C07_ex_history.
